@@ -40,7 +40,9 @@ var C16Kinds = []string{"tcp", "tcp+tls", "ws", "udp"}
 // C16Secret is the pre-shared key of the "udp+secret" kind (a KCP endpoint whose datagrams are AES-encrypted).
 const C16Secret = "c16-shared-secret"
 
-func c16IsUDP(kind string) bool { return kind == "udp" || kind == "udp+secret" }
+func c16IsUDP(kind string) bool { return kind == "udp" || kind == "udp+secret" || kind == "dns" }
+
+var c16DNSSeq int64
 
 func c16UDPURL(kind, hostport string) string {
 	if kind == "udp+secret" {
@@ -107,6 +109,7 @@ type C16Endpoint struct {
 	UDPRelay *UDPRelay
 	intr     chan os.Signal
 	mu       sync.Mutex
+	Domain   string // dns: the tunnel domain of this endpoint (miekg's handler table is process-wide: one domain per endpoint)
 	// Host: how the upstream URL spells this endpoint and what its certificate is valid for: "" = 127.0.0.1 with a
 	// certificate for both spellings, "localhost" = by name with a certificate for the name only, "ip" = 127.0.0.1
 	// with a certificate for the addresses only.
@@ -143,6 +146,9 @@ func NewC16Endpoint(kind, name string, withCert bool) (*C16Endpoint, error) {
 	}
 	t.Banner = C16Banner(name)
 	e.Target = t
+	if kind == "dns" {
+		e.Domain = fmt.Sprintf("t%d.c16.example.org", atomic.AddInt64(&c16DNSSeq, 1))
+	}
 	var lastErr error
 	for attempt := 0; attempt < 8; attempt++ {
 		e.SrvAddr = fmt.Sprintf("127.0.0.1:%d", FreePort(c16IsUDP(kind)))
@@ -193,6 +199,10 @@ func (e *C16Endpoint) StartServer() error {
 		s := server.NewHttpServer()
 		s.Address, s.ServerConfig = addr.MustParseAddress("http://"+e.SrvAddr), cfg
 		s.Endpoints = server.WebsocketEndpointList{{Endpoint: "/ws/all"}}
+		srv = s
+	case "dns":
+		s := server.NewDnsServer()
+		s.Address, s.ServerConfig, s.Domain = addr.MustParseAddress("dns://"+e.SrvAddr), cfg, e.Domain
 		srv = s
 	case "udp", "udp+secret":
 		s := server.NewPacketServer()
@@ -283,6 +293,8 @@ func (e *C16Endpoint) URL() string {
 	switch e.Kind {
 	case "ws":
 		return "http://" + C16SpellHost(e.Relay.Addr, e.Host) + "/ws/all"
+	case "dns":
+		return "dns://" + e.Domain + "?direct=false&dns=" + e.UDPRelay.Addr
 	case "udp", "udp+secret":
 		return c16UDPURL(e.Kind, C16SpellHost(e.UDPRelay.Addr, e.Host))
 	}
@@ -310,6 +322,8 @@ func C16Upstream(url string) upstream.Upstream {
 		return &upstream.Http{Address: a}
 	case strings.HasPrefix(url, "udp"):
 		return &upstream.Packet{Address: a}
+	case strings.HasPrefix(url, "dns"):
+		return &upstream.Dns{Address: a}
 	}
 	return &upstream.Socket{Address: a}
 }
